@@ -54,6 +54,16 @@ def census():
         bad.append("MetadataUpdate::slot_mut is no longer slot.get_or_insert_with(Self::default)")
     if re.search(r"\bslot\.take\(|\*slot\s*=[^=]|\bslot\s*=\s*None", uprod):
         bad.append("update.rs takes from / assigns to the slot directly")
+    # (4) hook H7b runs a verbatim copy of try_recv's body: the real method must still have exactly that body
+    try:
+        chan = open(os.path.join(REPO, "cluster/metadata/merge_channel.rs")).read()
+        m = re.search(r"pub\(crate\) fn try_recv\(&mut self\) -> Option<T> \{\s*(.*?)\s*\}", chan, re.S)
+        if not m or m.group(1) != "self.shared.slot.lock().unwrap().take()":
+            bad.append("Receiver::try_recv no longer has the body the hook copies: %r" % (m.group(1) if m else None))
+        if "self.0.shared.slot.lock().unwrap().take()" not in chan:
+            bad.append("hook H7b try_recv body changed")
+    except OSError as e:
+        bad.append("cannot read merge_channel.rs: %s" % e)
     return bad
 
 
@@ -70,11 +80,17 @@ def post(lines, verdicts):
         out.append(("diff", env[0], "diff tie not exercised: %d of %d S/Z scenarios did not run (%s)"
                     % (len(env), len(e2e), env[0].split("|", 1)[1].strip()[:80])))
     # per-kind floors: the evidence must not claim what was not exercised
-    floors = {"X": 100000, "Y": 50000, "U": 100000, "Q": 1000, "S": 4, "Z": 6}
+    floors = {"X": 100000, "Y": 50000, "U": 100000, "Q": 1000, "S": 4, "Z": 14}
     for k, n in floors.items():
         have = [ln for ln in _kind(lines, k) if "| skip-env" not in ln]
         if len(have) < n:
             out.append(("diff", k, "diff tie not exercised: %d cases of kind %s, floor %d" % (len(have), k, n)))
+    tr = sum(1 for ln in _kind(lines, "X") + _kind(lines, "Q") if "T" in ln.split("|")[0][2:])
+    if tr < 50000:
+        out.append(("diff", "X", "diff tie not exercised: only %d scripts contain try_recv" % tr))
+    cl = sum(1 for ln in _kind(lines, "X") + _kind(lines, "Y") + _kind(lines, "Q") if "K" in ln.split("|")[0][2:])
+    if cl < 50000:
+        out.append(("diff", "X", "diff tie not exercised: only %d scripts contain a clearing closure" % cl))
     eager = sum(1 for ln in _kind(lines, "Y") if ",!" in ln)
     if eager < 10000:
         out.append(("diff", "Y", "diff tie not exercised: only %d eager-waker scripts contain a poll made by the waker" % eager))
@@ -84,10 +100,16 @@ def post(lines, verdicts):
         if len(f) == 5 and f[4] == "1":
             for tok in ln.split("|", 1)[1].strip().split(","):
                 p = tok.split("/")
-                if len(p) == 6 and int(p[0], 16) >= 3 and int(p[5], 16) >= 1:
+                if len(p) == 7 and int(p[0], 16) >= 3 and int(p[5], 16) >= 1:
                     merged += 1
     if merged < 2:
         out.append(("diff", "Z", "diff tie not exercised: %d busy-consumer rounds in which refreshes were answered together" % merged))
+    failing = sum(1 for ln in _kind(lines, "Z") if ln.split("|")[0].split()[-1] == "2" and "| skip-env" not in ln)
+    if failing < 3:
+        out.append(("diff", "Z", "diff tie not exercised: %d failing-fetch scenarios" % failing))
+    loop3 = sum(1 for ln in _kind(lines, "Z") if ln.split("|")[0].split()[-1] == "3" and "| skip-env" not in ln)
+    if loop3 < 2:
+        out.append(("diff", "Z", "diff tie not exercised: %d select-loop scenarios (use_keyspace + refresh)" % loop3))
     twoF = sum(1 for ln in _kind(lines, "U") if re.search(r"[FG][^k]*[FG]", ln.split("|")[0][2:]))
     if twoF < 10000:
         out.append(("diff", "U", "diff tie not exercised: only %d U scripts merge two full fetches with responses before a take" % twoF))
@@ -96,6 +118,9 @@ def post(lines, verdicts):
 
 def extra_coverage(lines, verdicts):
     return {
+        "scripts_with_try_recv": sum(1 for ln in _kind(lines, "X") + _kind(lines, "Q") if "T" in ln.split("|")[0][2:]),
+        "scripts_with_a_clearing_closure": sum(
+            1 for ln in _kind(lines, "X") + _kind(lines, "Y") + _kind(lines, "Q") if "K" in ln.split("|")[0][2:]),
         "skip_env": sum(1 for ln in lines if "| skip-env" in ln),
         "eager_waker_scripts_with_a_poll_by_the_waker": sum(1 for ln in _kind(lines, "Y") if ",!" in ln),
         "update_scripts_merging_two_full_fetches_with_responses": sum(
